@@ -71,13 +71,14 @@ def run(ctx: vlib.Ctx):
     ctx.theorems("props/C02_pack.vo", ["C02_pack_ref", "C02_field_packer", "C02_basic"])
     ctx.theorems("props/C02_collection_kernel.vo", ["C02_seq_decision_is_code", "C02_map_decision_is_code",
                                                     "C02_conversion_never_skipped", "C02_byref_iff_listed_identity"], kernels=["K15"])
+    ctx.coqchk(["VerifProps.C02_pack", "VerifProps.C02_collection_kernel"])
     ctx.trusted += ["tools/kernels/k15_collection_exprs.py (translator of _make_sequence_expression/_make_mapping_expression; "
                     "recognised tests and returned templates are listed explicitly, anything else fails closed)"]
     ctx.trusted += ["TyModel.v (cp/pk: hand-written model of pack.py registry order, copy-vs-comprehension and could_be_none decisions) "
                     "tied by vm_compute correspondence; stdlib renderings (isoformat, str, total_seconds, encodebytes, Enum.value) are oracle tables"]
-    ctx.assumptions += ["format dialect part (orjson/msgpack/TOML native types, TOML null dropping) and ChainMap/Counter/unions/literals "
-                        "are decided by the reference-interpreter oracle only (outside the Coq grammar); NamedTuple (as_list form) and TypedDict "
-                        "(required keys, then the optional keys present) are inside the Coq grammar; namedtuple_as_dict and generic NamedTuples/TypedDicts are oracle only"]
+    ctx.assumptions += ["format dialect part (orjson/msgpack/TOML native types, TOML null dropping) and unions/literals "
+                        "are decided by the reference-interpreter oracle only (outside the Coq grammar); NamedTuple (as_list form), TypedDict "
+                        "(required keys, then the optional keys present) tuples with an unpacked segment (index/slice plan = kernel K7) and the abstract / special collection classes (Sequence, Mapping, Deque, OrderedDict, DefaultDict, MappingProxyType, Counter, ChainMap) are inside the Coq grammar; namedtuple_as_dict and generic NamedTuples/TypedDicts are oracle only"]
 
     cases, bad, log = tycorr.run(ctx, "c02_ty", ctx.budget(40, 300), 3, depth=3, foreign=1)
     hits = tyoracle.report_corr(ctx, "TyModel.pk/ref_enc vs BasicEncoder.encode", cases, bad, log, want="enc")
